@@ -753,6 +753,34 @@ PUBLISHED:
   EXTENSION(int plain(double v));
 };
 """)
+    H["minh2"] = _hdr("minh2", """
+class Engine { PUBLISHED: Engine(); virtual ~Engine(); int power() const; };
+class Radio { PUBLISHED: Radio(); virtual ~Radio(); int volume() const; };
+class Seat { PUBLISHED: Seat(); int rows() const; };
+class Car : public Engine, public Radio, public Seat { PUBLISHED: Car(); int wheels() const; };
+class Truck : public Seat, public Engine { PUBLISHED: Truck(); int axles() const; };
+class Vehicle { PUBLISHED: Vehicle(); virtual ~Vehicle(); int id() const; };
+class Boat { PUBLISHED: Boat(); virtual ~Boat(); int draft() const; };
+class Amph : public Boat, virtual public Vehicle, public Seat { PUBLISHED: Amph(); int mode() const; };
+class Hover : virtual public Vehicle, public Radio { PUBLISHED: Hover(); };
+""")
+    # declarations the builder rejects (unsuitable getter): nothing of them may be left in the class's lists
+    H["bad0"] = _hdr("bad0", """
+class Bar {
+PUBLISHED:
+  Bar();
+  int get_num_xs() const;
+  int get_x(float f) const;
+  MAKE_SEQ(get_xs, get_num_xs, get_x);
+  int get_y(int a, int b) const;
+  MAKE_PROPERTY(y, get_y);
+  int get_num_zs() const;
+  int get_z(int i) const;
+  MAKE_SEQ(get_zs, get_num_zs, get_z);
+  int get_w() const;
+  MAKE_PROPERTY(w, get_w);
+};
+""")
     H["stat0"] = _hdr("stat0", """
 class Counter {
 PUBLISHED:
@@ -884,6 +912,34 @@ int total(const One *a, const Two *b);
 END_PUBLISH
 """, includes=["pone"])),
     ]
+    # a class one library only forward-declares and another defines, with derivation / nested / outer links
+    S["fwd"] = [
+        ("libshape", "fshape", _hdr("fshape", """
+class Circle;
+class Shape {
+PUBLISHED:
+  Shape();
+  virtual ~Shape();
+  bool overlaps(const Circle *other) const;
+  Circle *as_circle();
+  int get_id() const;
+  class Style { PUBLISHED: Style(); int width; };
+  Style *style();
+};
+""")),
+        ("libcircle", "fcircle", _hdr("fcircle", """
+class Circle : public Shape {
+PUBLISHED:
+  Circle(double radius = 1.0);
+  double get_radius() const;
+  Shape *as_shape();
+  Shape::Style *get_style();
+  class Arc { PUBLISHED: Arc(); double get_angle() const; Circle *owner(); };
+  Arc *arc();
+};
+class Ring : public Circle { PUBLISHED: Ring(); Circle::Arc *outer(); };
+""", includes=["fshape"])),
+    ]
     # the same class owned (fully defined and exported) by two libraries: both name the shared header on
     # their command line
     shared = _hdr("xshared", """
@@ -926,7 +982,8 @@ def raw_to_model(raw):
     def rec(k, conv):
         return [{"i": x["i"], "r": conv(x)} for x in raw[k]]
     return {
-        "w": rec("w", lambda x: dict(n=x["n"], un=x["un"], lib=x["lib"], fn=x["fn"], ret=x["ret"], rvd=x["rvd"], ps=x["ps"])),
+        "w": rec("w", lambda x: dict(n=x["n"], un=x["un"], lib=x["lib"], fn=x["fn"], ret=x["ret"], rvd=x["rvd"], ps=x["ps"],
+                                     this=bool(x["pf"] and (x["pf"][0] & 2)))),
         "f": rec("f", lambda x: dict(sn=x["sn"], n=x["n"], isget=bool(x["fl"] & 0x10), isset=bool(x["fl"] & 0x20),
                                      lib=x["lib"], gl=bool(x["fl"] & 1), method=bool(x["fl"] & 4), cls=x["cls"],
                                      cw=x["cw"], pw=x["pw"])),
@@ -934,7 +991,8 @@ def raw_to_model(raw):
                                      ptr=bool(x["fl"] & 0x100), cst=bool(x["fl"] & 0x200), fd=bool(x["fd"]), gl=bool(x["gl"]),
                                      outer=x["outer"], wrapped=x["wrapped"], ctors=x["ctors"], dtor=x["dtor"], elems=x["elems"],
                                      methods=x["methods"], mseqs=x["mseqs"], casts=x["casts"],
-                                     derivs=[dict(base=d["base"], up=d["up"], down=d["down"]) for d in x["derivs"]],
+                                     derivs=[dict(base=d["base"], up=d["up"], down=d["down"], nodown=bool(d["fl"] & 4))
+                                             for d in x["derivs"]],
                                      nested=x["nested"])),
         "m": rec("m", lambda x: dict(n=x["n"], lib=x["lib"], type=x["type"], getter=x["getter"])),
         "e": rec("e", lambda x: dict(sn=x["sn"], n=x["n"], lib=x["lib"], gl=bool(x["gl"]), type=x["type"], getter=x["getter"],
@@ -1012,7 +1070,7 @@ _TOK = re.compile(r"\b(class|struct|namespace|enum)\b[^;{}()]*\{|\{|\}|\b(%s)\s*
 def header_truth(text):
     """[{k:'e'|'s', sn, f, fn}]: for every element / make_seq declared with a MAKE_* macro in a (possibly nested)
     class of the header, the function each link field must name ('' = the field must be empty)."""
-    scope, props, seqs = [], {}, {}
+    scope, props, seqs, bases = [], {}, {}, []
     for m in _TOK.finditer(text):
         tok = m.group(0)
         if tok == "}":
@@ -1024,6 +1082,16 @@ def header_truth(text):
             nm = re.match(r"(class|struct|namespace|enum)\s+(?:class\s+)?(\w+)", tok)
             kind = m.group(1)
             scope.append((kind, nm.group(2)) if nm and kind in ("class", "struct", "namespace") else None)
+            colon = re.search(r"(?<!:):(?!:)", tok)
+            if nm and kind in ("class", "struct") and colon and all(x and x[0] != "namespace" for x in scope):
+                heads = tok[colon.end():].rstrip("{").split(",")
+                if not any("<" in h or "::" in h for h in heads):
+                    cls = "::".join(x[1] for x in scope)
+                    for i, h in enumerate(heads):
+                        words = h.split()
+                        if "private" in words or "protected" in words:
+                            break
+                        bases.append(dict(k="b", sn=cls, idx=i + 1, base=words[-1], virt=1 if "virtual" in words else 0))
         else:
             if any(x is None or x[0] == "namespace" for x in scope) or not scope:
                 continue            # not exported / not in a class
@@ -1044,7 +1112,7 @@ def header_truth(text):
     for sn, ent in sorted(seqs.items()):
         for f in ("lenf", "elemf"):
             out.append(dict(k="s", sn=sn, f=f, fn=ent[f]))
-    return out
+    return out + bases
 
 
 # every index-valued field of every record kind: (label, kind, test on a raw record)
